@@ -373,7 +373,13 @@ inductive FRes
   (AttributeError in `previous_field.read_transform`); since fix 8da3027 it is a
   `noncomposite` error. -/
   | crash
+  /-- the iteration budget of the alias-following `while` loop is used up.  Since fix 22b80e8
+  (the loop keeps the list of fields it has visited) this cannot happen any more:
+  `C12_member_lookup_total`. -/
   | fuel
+  /-- the nesting budget of `_resolve_field_reference` calling itself for the reference a
+  renaming field stands for is used up (Python: `RecursionError`) -/
+  | recursion
   deriving DecidableEq, Repr
 
 structure FEnv where
@@ -384,23 +390,30 @@ structure FEnv where
   headCanon : Nat → Option Path
   frefs : Nat → Option FRef
 
-mutual
-/-- the `while ir_util.field_is_virtual(previous_field)` loop: follow virtual aliases until a
-physical field is reached. -/
-def physical (E : FEnv) : Nat → Obj → PathElem → FRes ⊕ Obj
-  | 0, _, _ => .inl .fuel
-  | fuel + 1, o, prev =>
+/-- The `while ir_util.field_is_virtual(previous_field)` loop: follow renaming virtual fields
+until a physical field is reached.  `res i` is what the nested call
+`_resolve_field_reference(previous_field.read_transform.field_reference, …)` leaves behind for
+the `i`-th field reference; `visited` is the list `visited_fields` of fix 22b80e8 (a renaming
+that comes back to a field already passed names no field: noncomposite error); the first
+argument bounds the number of iterations (`fuel` when it is used up — never, see
+`C12_member_lookup_total`). -/
+def physLoop (objs : List Obj) (res : Nat → FRes) :
+    Nat → Obj → PathElem → List Obj → FRes ⊕ Obj
+  | 0, _, _, _ => .inl .fuel
+  | n + 1, o, prev, visited =>
     match o.kind with
     | .field (.virtAlias i) =>
-      match resolveFRef E fuel i with
+      if o ∈ visited then .inl (.err (Err.noncomposite prev.name prev.rloc)) else
+      match res i with
       | .ok cs =>
         match cs.getLast? with
         | none => .inl .bail
         | some c =>
-          match findObject E.objs c with
-          | some o' => physical E fuel o' prev
+          match findObject objs c with
+          | some o' => physLoop objs res n o' prev (o :: visited)
           | none => .inl .crash
       | .fuel => .inl .fuel
+      | .recursion => .inl .recursion
       | .crash => .inl .crash
       | _ => .inl .bail
     | .field .virtOther => .inl (.err (Err.noncomposite prev.name prev.rloc))
@@ -409,15 +422,18 @@ def physical (E : FEnv) : Nat → Obj → PathElem → FRes ⊕ Obj
     -- module, a type, an enum value has no members
     | _ => .inl (.err (Err.noncomposite prev.name prev.rloc))
 
+/-- `physLoop` with the budget the model gives it: one iteration per definition and one more. -/
+def physical (E : FEnv) (res : Nat → FRes) (o : Obj) (prev : PathElem) : FRes ⊕ Obj :=
+  physLoop E.objs res (E.objs.length + 1) o prev []
+
 /-- the `for ref in field_reference.path[1:]` loop -/
-def members (E : FEnv) : Nat → Obj → PathElem → List PathElem → List Path → FRes
-  | 0, _, _, _, _ => .fuel
-  | _ + 1, _, _, [], acc => .ok acc
-  | fuel + 1, o, prev, r :: rest, acc =>
-    match physical E fuel o prev with
-    | .inl res => res
-    | .inr o =>
-      match o.kind with
+def members (E : FEnv) (res : Nat → FRes) : Obj → PathElem → List PathElem → List Path → FRes
+  | _, _, [], acc => .ok acc
+  | o, prev, r :: rest, acc =>
+    match physical E res o prev with
+    | .inl x => x
+    | .inr p =>
+      match p.kind with
       | .field .array => .err (Err.arrayMember prev.name prev.rloc)
       | .field (.atomic t) =>
         match E.typeCanon t with
@@ -426,13 +442,14 @@ def members (E : FEnv) : Nat → Obj → PathElem → List PathElem → List Pat
           let m := tc ++ [r.name]
           match findObject E.objs m with
           | none => .err (Err.missing r.name r.nloc)
-          | some o' => members E fuel o' r rest (acc ++ [m])
+          | some o' => members E res o' r rest (acc ++ [m])
       | _ => .crash
 
-/-- `_resolve_field_reference` for the `i`-th field reference of the module. -/
+/-- `_resolve_field_reference` for the `i`-th field reference of the module; the first argument
+bounds the nesting of the function calling itself (`recursion` when it is used up). -/
 def resolveFRef (E : FEnv) : Nat → Nat → FRes
-  | 0, _ => .fuel
-  | fuel + 1, i =>
+  | 0, _ => .recursion
+  | depth + 1, i =>
     match E.frefs i, E.headCanon i with
     | some fr, some h =>
       match fr.path with
@@ -442,9 +459,8 @@ def resolveFRef (E : FEnv) : Nat → Nat → FRes
         match findObject E.objs h with
         -- `find_object_or_none` gave None, which is not a `Field` either
         | none => .err (Err.noncomposite p0.name p0.rloc)
-        | some o => members E fuel o p0 rest [h]
+        | some o => members E (resolveFRef E depth) o p0 rest [h]
     | _, _ => .crash
-end
 
 /-! ## `resolve_symbols` + `resolve_field_references` -/
 
@@ -494,6 +510,6 @@ def resolveFieldRefs (M : ModuleDesc) (refCanon headCanon : List Path) (frefs : 
     List FRes :=
   let E : FEnv := { objs := objects M, typeCanon := fun i => refCanon[i]?,
                     headCanon := fun i => headCanon[i]?, frefs := fun i => frefs[i]? }
-  (List.range frefs.length).map (fun i => resolveFRef E (3 * frefs.length + 3 + 2 * (frefs.foldl (fun n f => n + f.path.length) 0)) i)
+  (List.range frefs.length).map (fun i => resolveFRef E (frefs.length + 1) i)
 
 end Emboss.Scope
